@@ -30,25 +30,29 @@ def meta_of(idx: int):
 # --------------------------------------------------------------------------
 # strategies
 # --------------------------------------------------------------------------
-def st_count(eps_hint: int = 3):
+def st_count(eps_hint: int = 3, min_count: int = 0):
     """Example counts biased to 0, 1 and multiples of the shard size +-1."""
     return st.one_of(
-        st.integers(0, 2),
-        st.integers(0, 3 * eps_hint + 1),
+        st.integers(min_count, 2),
+        st.integers(min_count, 3 * eps_hint + 1),
         st.sampled_from([
             eps_hint - 1, eps_hint, eps_hint + 1, 2 * eps_hint - 1,
             2 * eps_hint, 2 * eps_hint + 1
-        ]).filter(lambda x: x >= 0),
+        ]).map(lambda x: max(x, min_count)),
     )
 
 
-def st_runs(eps_hint: int, max_runs: int = 4, metas: bool = True):
+def st_runs(eps_hint: int,
+            max_runs: int = 4,
+            metas: bool = True,
+            min_runs: int = 0,
+            min_count: int = 0):
     run = st.tuples(
         st.integers(0, 2),
-        st_count(eps_hint),
+        st_count(eps_hint, min_count),
         (st.sampled_from([0, 0, 0, 1, 2, 3, 4, 5]) if metas else st.just(0)),
     ).map(list)
-    return st.lists(run, min_size=0, max_size=max_runs)
+    return st.lists(run, min_size=min_runs, max_size=max_runs)
 
 
 def st_dir():
@@ -63,20 +67,25 @@ def st_dir():
     })
 
 
-def st_filler_op(eps_hint: int, metas: bool = True):
+def st_filler_op(eps_hint: int, metas: bool = True, busy: bool = False):
     return st.fixed_dictionaries({
         "k": st.just("filler"),
         "dir": st_dir(),
-        "runs": st_runs(eps_hint, metas=metas),
+        "runs": st_runs(eps_hint, metas=metas, min_runs=int(busy),
+                        min_count=int(busy)),
         "reopen": st.booleans(),
     })
 
 
-def st_multi_op(eps_hint: int, single_process=None, metas: bool = True):
+def st_multi_op(eps_hint: int,
+                single_process=None,
+                metas: bool = True,
+                busy: bool = False):
     sp = st.booleans() if single_process is None else st.just(single_process)
     return st.fixed_dictionaries({
         "k": st.just("multi"),
-        "writers": st.lists(st_runs(eps_hint, max_runs=3, metas=metas),
+        "writers": st.lists(st_runs(eps_hint, max_runs=3, metas=metas,
+                                    min_runs=int(busy), min_count=int(busy)),
                             min_size=1,
                             max_size=4),
         "sp": sp,
@@ -89,13 +98,19 @@ def st_ops(eps_hint: int,
            multi: bool = True,
            create_again: bool = False,
            single_process=None,
-           metas: bool = True):
-    kinds = [st_filler_op(eps_hint, metas), st_filler_op(eps_hint, metas)]
+           metas: bool = True,
+           busy: bool = False,
+           min_ops: int = 1):
+    """busy=True: every session writes at least one example."""
+    kinds = [
+        st_filler_op(eps_hint, metas, busy),
+        st_filler_op(eps_hint, metas, busy)
+    ]
     if multi:
-        kinds.append(st_multi_op(eps_hint, single_process, metas))
+        kinds.append(st_multi_op(eps_hint, single_process, metas, busy))
     if create_again:
         kinds.append(st.just({"k": "create_again"}))
-    return st.lists(st.one_of(*kinds), min_size=1, max_size=max_ops)
+    return st.lists(st.one_of(*kinds), min_size=min_ops, max_size=max_ops)
 
 
 def st_desc(formats=("fb", "npz"),
